@@ -19,6 +19,7 @@ CONTRACT_MODULES = [
     "contracts.hstrp_handler",
     "contracts.storage",
     "contracts.p2p_rdac",
+    "contracts.tracker",
 ]
 
 TRUSTED_BASE = [
@@ -116,6 +117,12 @@ PROPS = {
         level_note="Bound: <= 3 records, 4 literal addresses, 6 patch shapes (values symbolic). Hidden state of the storage is only reachable through the histories that build the pre-states (creations preceded / interleaved by missed lookups). uuid4 freshness is an assumption. Mostly concrete exploration (one path per shape).",
         explanation="contracts RepeaterStorage.match_incoming / lookups / save / patch_of_id, Repeater.attr",
         assumptions=["uuid.uuid4 returns a fresh id"],
+    ),
+    "C08": dict(
+        level_text="Inductive proof over burst histories: ONE parseable burst of the alphabet (voice LC header, terminator, data header confirmed / unconfirmed / response / short data, preamble CSBK, other CSBK, rate 1/2, 3/4, 1 data block, voice SYNC burst, voice EMB burst; contents symbolic) delivered through Terminal.process_incoming_burst to a timeslot whose tracker is in ANY state of the invariant INV (type idle / voice / data; header none / full LC / data header; any collected blocks; counters, confirmed flag, rx sequence symbolic; last voice label any), with a recorder between two observers that raise on every notification: no exception; an end only for the open kind; it hands over the header (the latest received) and exactly the PDUs collected since the start; stream id constant during a transmission and fresh after its end; idle afterwards unless the burst itself opens the next transmission; INV holds again; A-F labelling and its memory; rx sequence +1 mod 256 and restart after an end; the other timeslot untouched; and the same state and burst on a second terminal without raising observers produce the same notifications and tracker state.",
+        level_note="Bound: counters below 512 in the pre-state (Python ints are unbounded; the code adds small constants and tests equality only); at most 2 collected blocks besides the header; payload flags the tracker never reads are literal (FewFlags); quick tier: 4 of 5 pre-state families, 4 of 7 last-voice labels, literal block contents where no data block closes the transmission. secrets.token_bytes is replaced by a ghost that never repeats a value (assumed contract of the OS random source). BPTC / trellis / CRC callees by contract (C02, C10, C05).",
+        explanation="contract Timeslot.process_burst (covers Terminal.process_incoming_burst, Transmission.*, WithObservers fan-out, Timeslot.get_rx_sequence)",
+        assumptions=["secrets.token_bytes(4) never returns a value it returned before (holds with probability 1 - n*2^-32)"],
     ),
     "C18": dict(
         level_text="Inductive proof over datagram histories: ONE datagram (registration / DMR start-up / RDAC start-up / ping / ack / unknown command / truncated command / garbage, literal prefixes with symbolic filler octets) from one of three peers, delivered to the P2P handler over a storage pre-state in which each peer is absent / present-unregistered / present-registered: acceptance, redirect and ping answers only for a source registered in the pre-state and only to its stored outbound address or the requester; exactly the single-byte reject to the requester otherwise; only a registration creates or registers; other peers' records untouched. RDAC: one datagram (1-byte reset / the expected response with symbolic body / an unexpected response / garbage) for every step 0..14: the step advances only on the expected response, a reset restarts (step 1, one STEP0 request to that peer), another peer's step never changes, completion callback exactly on 13 -> 14 with that peer's record id.",
